@@ -112,6 +112,10 @@ class CallFunction(Node):
                 return self.name + '('+params.generate_lingo(indentation)+')'
             else:    
                 return self.name + ' ' + params.generate_lingo(indentation)
+        elif self.use_parenthesis and not self.with_result:
+            # A function of another script called without arguments inside
+            # an expression: the bare name would read as a variable
+            return self.name + '()'
         else:
             return self.name
 
